@@ -53,6 +53,14 @@ def expectedExitEveryRule : String := "func (s *Context) ExitEveryRule(ctx antlr
 def expectedVisitTerminal : String := "func (s *Context) VisitTerminal(node antlr.TerminalNode) { s.visitorStack[len(s.visitorStack)-1].visitor.VisitTerminal(node) }"
 def expectedVisitErrorNode : String := "func (s *Context) VisitErrorNode(node antlr.ErrorNode) { s.visitorStack[len(s.visitorStack)-1].visitor.VisitErrorNode(node) }"
 
+/-- error reporting as transcribed by the outcome model: ANTLR's lexer AND parser report to the context (parseCypher registers it on
+both), every SyntaxError call records exactly one error (no guard), AddErrors drops nothing but nil, and the unsupported-rule
+error keeps the rule's text as it is (no slicing, no arithmetic on its length) -/
+def expectedSyntaxError : String := "func (s *Context) SyntaxError(recognizer antlr.Recognizer, offendingSymbol any, line, column int, msg string, e antlr.RecognitionException) { s.AddErrors(&SyntaxError{ Line: line, Column: column, OffendingSymbol: offendingSymbol, Message: msg, }) }"
+def expectedAddErrors : String := "func (s *Context) AddErrors(errs ...error) { for _, err := range errs { if err != nil { s.Errors = append(s.Errors, err) } } }"
+def expectedNewUnsupportedRuleError : String := "func (s *BaseVisitor) newUnsupportedRuleError(c antlr.ParserRuleContext) { s.ctx.AddErrors( SyntaxError{ Line: c.GetStart().GetLine(), Column: c.GetStart().GetColumn(), OffendingSymbol: c.GetText(), Message: fmt.Sprintf(\"%s rule is not supported\", parser.CypherParserStaticData.RuleNames[c.GetRuleIndex()]), }, ) }"
+def expectedParseCypherInner : String := "func parseCypher(ctx *Context, input string) (*cypher.RegularQuery, error) { var ( queryBuffer = bytes.NewBufferString(input) lexer = parser.NewCypherLexer(antlr.NewIoStream(queryBuffer)) tokenStream = antlr.NewCommonTokenStream(lexer, antlr.TokenDefaultChannel) parserInst = parser.NewCypherParser(tokenStream) parseTreeWalker = antlr.NewParseTreeWalker() queryVisitor = &QueryVisitor{} ) lexer.RemoveErrorListeners() lexer.AddErrorListener(ctx) parserInst.RemoveErrorListeners() parserInst.AddErrorListener(ctx) ctx.Enter(queryVisitor) parseTreeWalker.Walk(ctx, parserInst.OC_Cypher()) return queryVisitor.Query, errors.Join(ctx.Errors...) }"
+
 /-- the Parts / partIdx bookkeeping table of MultiPartQueryVisitor (Generated/Visitors.lean) -/
 def PT : PartsTab := Generated.Visitors.partsOps
 def expectedCurrentPart : String := "func (s *MultiPartQuery) CurrentPart() *MultiPartQueryPart { return s.Parts[len(s.Parts)-1] }"
